@@ -42,6 +42,9 @@ type Term struct {
 	// derived array (executor-side): contents are given by Fn; such a term is
 	// never sent to the solver, every read is expanded (read-over-write).
 	Fn func(idx *Term) *Term
+	// for block terms of the form ite(c, 0, b): the block to resolve reads
+	// against (a nil slice is never read)
+	BlkOf *Term
 }
 
 var narr int
